@@ -807,8 +807,8 @@ def do_check(prop, tier, only, keep, jobs, write_evidence=True):
     return rc
 
 
-def scan_assumptions():
-    """Mechanical scan of /verif for assumptions and trusted stubs."""
+def scan_assumptions(used=None):
+    """Mechanical scan of the /verif files used by this run for assumptions and trusted stubs."""
     found = []
     for d in ('harness', 'stubs', 'contracts', 'spec', 'include'):
         dd = os.path.join(VERIF, d)
@@ -816,6 +816,8 @@ def scan_assumptions():
             continue
         for f in sorted(os.listdir(dd)):
             p = os.path.join(dd, f)
+            if used is not None and d in ('harness', 'stubs', 'contracts') and (d + '/' + f) not in used:
+                continue
             try:
                 txt = open(p).read()
             except Exception:
@@ -849,7 +851,45 @@ def write_ev(prop, tier, seed, stage, sel, tasks, results, known, violations, un
         for x in t.s.get('trusted', []):
             if x not in trusted:
                 trusted.append(x)
-    assumptions = scan_assumptions()
+    used = set()
+    for t, _ in tasks:
+        used.add(t.s['harness'])
+        used.update(t.s.get('stubs', []))
+        used.update(t.s.get('include', []))
+    assumptions = scan_assumptions(used)
+    # frames proved by dfcc: the assigns clauses of the enforced functions
+    frames = {}
+    for t, _ in tasks:
+        for fn in t.s.get('enforce', []):
+            for h in t.s.get('include', []):
+                try:
+                    txt = open(os.path.join(VERIF, h)).read()
+                except OSError:
+                    continue
+                frames.setdefault(fn, [])
+                for mo in re.finditer(r'[ \*]' + re.escape(fn) + r'\s*\(', txt):
+                    k, depth = mo.end() - 1, 0
+                    while k < len(txt):
+                        depth += txt[k] == '('
+                        depth -= txt[k] == ')'
+                        if depth == 0 and txt[k] == ';':
+                            break
+                        if depth == 0 and txt[k] == '{':
+                            k = -1
+                            break
+                        k += 1
+                    if k <= 0:
+                        continue
+                    decl = txt[mo.start():k]
+                    for m2 in re.finditer(r'__CPROVER_(assigns|frees)\s*\(', decl):
+                        e, d2 = m2.end() - 1, 0
+                        while e < len(decl):
+                            d2 += decl[e] == '('
+                            d2 -= decl[e] == ')'
+                            e += 1
+                            if d2 == 0:
+                                break
+                        frames[fn].append(' '.join(decl[m2.start():e].split()))
     for f in replaced_unproved:
         assumptions.append('contract of %s is used at call sites (replace-call-with-contract) but not enforced by any obligation' % f)
     unv = []
@@ -883,6 +923,7 @@ def write_ev(prop, tier, seed, stage, sel, tasks, results, known, violations, un
                                   'bound': r['bound'], 'cbmc_properties': r['cbmc_properties'], 'discharged': r['discharged'],
                                   'solver_s': r['solver_s'], 'why': r['why']} for r in bounded],
             'unverified': unv,
+            'frames_proved': frames,
             'known_findings': known,
             'loop_contracts_injected': stage.inject_report,
             'solver_s': round(sum(r['solver_s'] for r in results), 1),
